@@ -51,10 +51,10 @@ check('C09', 'other',
       'Proved (unbounded, from any well-formed state): Node.__init__, Node.remove, Line.__init__ (explicit free pins / first free pins), Line.remove and the container primitives re-establish the well-formedness clauses W0-W6 and change exactly what they state (object-heap model). Bounded: wf class invariant after every step of edit histories over the public API (exhaustive small + seeded long) and after the rewiring transformations.',
       'well-formed use per the property; rewiring transformations (eliminate_1to1_forks, substitute, copy, pickle) bounded only; free_index by an assumed contract',
       'contract-based deductive verification on an object heap (representation invariant as pre/postcondition, loop invariant for the re-numbering) + runtime class invariant as bounded stand-in', 'DESIGN.md 5-C09')
-check('C10', 'exploration',
-      'Bounded over circuits and pin subsets, complete over input valuations (z3): every library cell and synthetic implementation shape resolves without exception, keeps wf, names/order of ports and state elements, and the observed function; copy/pickle/eliminate and compositions on the shared circuit space.',
-      'spec evaluator incl. hierarchical instance semantics is the oracle; no deductive part within reach (object surgery)',
-      'bounded runtime contracts with z3 equivalence per instance', 'DESIGN.md 5-C10')
+check('C10', 'other',
+      'Proved (unbounded, one step): eliminating one 1:1 fork (loop body of eliminate_1to1_forks with Node.remove / Line.remove inlined) keeps the graph well-formed and splices the input line to the reader and pin of the output line, nothing else changes. Bounded over circuits and pin subsets, complete over input valuations (z3): every library cell and synthetic implementation shape resolves without exception, keeps wf, names/order of ports and state elements, and the observed function; copy/pickle/eliminate and compositions on the shared circuit space.',
+      'spec evaluator incl. hierarchical instance semantics is the oracle; substitute / resolve / copy / pickle bounded only',
+      'contract-based deductive verification of the fork-elimination step on an object heap + bounded runtime contracts with z3 equivalence per instance', 'DESIGN.md 5-C10')
 check('C19', 'other',
       'Finite configuration space enumerated completely: postcondition of TechLib.__init__ on the five library texts (names expand, pin tables, implementation ports) and datasheet function of every family cell on all input combinations (truth tables by the real LogicSim).',
       'spec.datasheet is the oracle; runtime-evaluated contract, exhaustive, not a symbolic proof',
